@@ -102,6 +102,14 @@ type typeDecl struct {
 	Group  int         `json:"group,omitempty"` // >0: consecutive declarations with the same number share one `type ( … )`
 	Action string      `json:"action,omitempty"`
 	Defers []deferSpec `json:"defers,omitempty"`
+
+	// generic: the type parameter stands on a line of its own (`type Box[` / `	Item any,` / `] struct{ … }`): no comment
+	// ends on the line above it, while a parameter on the line of the declared name has the declaration's doc above it
+	TParamLine bool `json:"tparam_line,omitempty"`
+	// LineFile != "": a `//line <LineFile>:<LineNo>` directive (and a blank line) stands above the declaration's doc comment,
+	// as in the output of goyacc / ragel / template engines: positions below it name that file (in the same directory)
+	LineFile string `json:"line_file,omitempty"`
+	LineNo   int    `json:"line_no,omitempty"`
 }
 
 type funcDecl struct {
@@ -160,8 +168,11 @@ type layout struct {
 	Pos  map[string]int // "<dir>/<file>:<line>" of the declared name -> declaration id
 }
 
+// srcw writes a file and keeps the position go/token reports for the line being written: file name and line number
+// as adjusted by the //line directives written so far.
 type srcw struct {
 	b    strings.Builder
+	file string
 	line int
 }
 
@@ -170,6 +181,16 @@ func (w *srcw) ln(s string) int {
 	w.b.WriteString(s)
 	w.b.WriteByte('\n')
 	return w.line
+}
+
+// directive writes `//line file:n` (column 1) and a blank line: the blank line is file:n, what follows file:n+1.
+func (w *srcw) directive(file string, n int) {
+	if n < 1 {
+		n = 1
+	}
+	w.ln(fmt.Sprintf("//line %s:%d", file, n))
+	w.file, w.line = file, n-1
+	w.ln("")
 }
 
 func kindOf(k string) string {
@@ -202,6 +223,9 @@ func typeBody(d typeDecl, extTarget string) string {
 	case "iface":
 		return d.Name + " interface{ M() }"
 	case "generic":
+		if d.TParamLine {
+			return d.Name + "[\n\t" + d.TParam + " any,\n] struct{ v " + d.TParam + " }"
+		}
 		return d.Name + "[" + d.TParam + " any] struct{ v " + d.TParam + " }"
 	case "alias":
 		return d.Name + " = int"
@@ -247,7 +271,7 @@ func writeModule(root string, pkgs []pkgSpec) (*layout, error) {
 		files := append([]fileSpec(nil), p.Files...)
 		sort.SliceStable(files, func(i, j int) bool { return files[i].Name < files[j].Name })
 		for fi, f := range files {
-			w := &srcw{}
+			w := &srcw{file: f.Name}
 			if f.HasDoc {
 				cs := w.docLines("", f.Text || len(f.Doc) == 0, "Package "+p.Dir, f.Doc)
 				info.FileTags = append(info.FileTags, tagsOf(f.Doc))
@@ -274,14 +298,21 @@ func writeModule(root string, pkgs []pkgSpec) (*layout, error) {
 				if d.Kind == "aliasext" && (info.Next < 0 || ext == "") {
 					d.Kind = "alias"
 				}
+				if d.LineFile != "" {
+					w.directive(d.LineFile, d.LineNo)
+				}
 				cs := w.docLines(indent, d.Text, d.Name, d.Tags)
 				var line int
+				body := strings.Split(typeBody(d, ext), "\n") // the declared name stands on the first line
 				if grouped {
-					line = w.ln(indent + typeBody(d, ext))
+					line = w.ln(indent + body[0])
 				} else {
-					line = w.ln(indent + "type " + typeBody(d, ext))
+					line = w.ln(indent + "type " + body[0])
 				}
-				lay.Pos[fmt.Sprintf("%s/%s:%d", p.Dir, f.Name, line)] = d.ID
+				for _, l := range body[1:] {
+					w.ln(indent + l)
+				}
+				lay.Pos[fmt.Sprintf("%s/%s:%d", p.Dir, w.file, line)] = d.ID
 				scope := pkgScope && d.Name != "_"
 				info.Defs = append(info.Defs, defInfo{ID: d.ID, Name: d.Name, Kind: kindOf(d.Kind), PkgScope: scope,
 					Tags: tagsOf(d.Tags), DocText: groupText(cs), Action: d.Action, Defers: d.Defers})
